@@ -20,6 +20,16 @@ def dn():
     """import dynetx lazily (from REPO's working tree)"""
     global _dn
     if _dn is None:
+        try:  # progress bars off (harness side only; the library is not modified)
+            import tqdm as _tq
+
+            class _Quiet(_tq.tqdm):
+                def __init__(self, *a, **k):
+                    k['disable'] = True
+                    super().__init__(*a, **k)
+            _tq.tqdm = _Quiet
+        except Exception:
+            pass
         import dynetx
         assert os.path.abspath(dynetx.__file__).startswith(os.path.abspath(REPO)), dynetx.__file__
         _dn = dynetx
@@ -210,6 +220,13 @@ def encode_op(op):
         for ln in lines:
             flat += [len(ln)] + [ord(c) for c in ln]
         return [76, dst, 0 if kind == 'snap' else 1, int(d), ord(m), *(_o(None if delim is None else ord(delim))), int(keys)] + flat
+    if k == 'dconf':
+        _, r, sliding, start, delta, ptype, psize, alphas, tabs = op
+        flat = []
+        for t in tabs:
+            items = sorted(t.items())
+            flat += [len(items)] + [x for kv in items for x in kv]
+        return [95, r, int(sliding), start, delta, PTYPES.index(ptype), psize, len(alphas)] + list(alphas) + flat
     if k == 'stat':
         _, r, which, u, v = op
         return [90, r, STATS.index(which), u or 0, v or 0]
@@ -234,6 +251,16 @@ def encode_op(op):
 STATS = ['coverage', 'node_contribution', 'edge_contribution', 'node_pair_uniformity', 'uniformity', 'density',
          'pair_density', 'node_density', 'snapshot_density', 'node_presence']
 IETS = ['global', 'node', 'out', 'in']
+PTYPES = ['shortest', 'fastest', 'foremost', 'fastest_shortest', 'shortest_fastest']
+
+
+class Approx(float):
+    """a float compared up to 1e-9 (exact rationals of the model vs float arithmetic of the implementation)"""
+    def __eq__(self, other):
+        return abs(float(self) - float(other)) <= 1e-9
+    def __ne__(self, other):
+        return not self.__eq__(other)
+    __hash__ = None
 OUTCOMES = {0: 'Done', 1: 'ValueError', 2: 'NetworkXError', 3: 'NetworkXNotImplemented', 4: 'KeyError', 5: 'Frozen', 6: 'TypeError'}
 
 
@@ -258,6 +285,16 @@ def decode_res(op, ints, directed_of):
         return (bool(ints[0]), bool(ints[1]))
     if k in ('add', 'bulk', 'slice', 'todir', 'toundir', 'rsnap', 'rint', 'nlg', 'rtext', 'rtsnap', 'rtint', 'rtnl'):
         return OUTCOMES[ints[0]]
+    if k == 'dconf':
+        if ints[:1] == [-2]:
+            return 'None'
+        if ints[:1] == [-1]:
+            return 'ValueError'
+        out = {}
+        for i in range(0, len(ints), 6):
+            st, al, pi, n, num, den = ints[i:i + 6]
+            out[(st, al, pi, n)] = Approx(Fraction(num, den))
+        return out
     if k == 'stat':
         if op[2] == 'node_presence':
             return sorted(ints)
@@ -536,6 +573,36 @@ class Impl:
             return self.step_io_write(op)
         if k in ('rtsnap', 'rtint', 'rtnl'):
             return self.step_io_rt(op)
+        if k == 'dconf':
+            import itertools as it
+            from dynetx.algorithms import assortativity as asso
+            _, r, sliding, start, delta, ptype, psize, alphas, tabs = op
+            G = self.g(r)
+            names = ['l%d' % i for i in range(len(tabs))]
+            for nm, tab in zip(names, tabs):
+                for n, val in tab.items():
+                    if I.to(n) in G._node:
+                        G._node[I.to(n)][nm] = 'v%d' % val
+            profs = [p for i in range(1, psize + 1) for p in it.combinations(names, i)]
+            pidx = {'_'.join(p): i for i, p in enumerate(profs)}
+            try:
+                if sliding:
+                    res = asso.sliding_delta_conformity(G, delta, [float(a) for a in alphas], names, profile_size=psize, path_type=ptype)
+                    out = {}
+                    for al, d1 in res.items():
+                        for pn, d2 in d1.items():
+                            for n, seq in d2.items():
+                                for (st, val) in seq:
+                                    out[(st, int(float(al)), pidx[pn], I.back(n))] = Approx(val)
+                    return out
+                res = asso.delta_conformity(G, start, delta, [float(a) for a in alphas], names, profile_size=psize, path_type=ptype)
+            except ValueError:
+                return 'ValueError'
+            except Exception as x:
+                return _exc_name(x)
+            if res is None:
+                return 'None'
+            return {(0, int(float(al)), pidx[pn], I.back(n)): Approx(val) for al, d1 in res.items() for pn, d2 in d1.items() for n, val in d2.items()}
         if k == 'stat':
             _, r, which, u, v = op
             G = self.g(r)
